@@ -1,7 +1,6 @@
 import RV.Base.SetList
 /-
-  C11 — model of property-path evaluation in `rdflib/paths.py` (after the `fix:` commits
-  of branch fix-C11), as reached through `Graph.triples((s, path, o))`.
+  C11 — model of property-path evaluation in `rdflib/paths.py` as it is on /repo main, as reached through `Graph.triples((s, path, o))`.
 
   Terms are naturals owned by the harness; a graph is the list of its triples (read as a set);
   an evaluator `Ev` is what `Path.eval(graph, subj, obj)` is for one path: a function from the
@@ -24,7 +23,7 @@ import RV.Base.SetList
     allStarts      MulPath.eval._all_fwd_paths, the `more` loop with its `seen` of start nodes
     zeroPairs      the zero-length step for a given term (holds for a term absent from the graph)
     dedupInto      the `done` set of MulPath.eval
-    negEval        NegatedPath.eval
+    negEval        NegatedPath.eval (as coded; see known finding C11-F5)   negEvalFixed = its repair
     build          the flattening done by SequencePath.__init__ / AlternativePath.__init__
     translate      rdflib/plugins/sparql/algebra.py translatePath on the parser's tree `Syn`
 
@@ -199,10 +198,19 @@ def mulEval (g : Graph) (ev : Ev) (m : Mod) : Ev := fun s o =>
   let z := if m.zero then zeroPairs s o else []
   z ++ dedupInto z (mulRun g ev m s o).1
 
-/-- `NegatedPath.eval`: forward triples whose predicate is not a plain member (present when there
-    is a plain member or no member at all) and reversed triples whose predicate is not an
-    inverse member (present when there is an inverse member) -/
+/-- `NegatedPath.eval` as it is in the code: every *forward* triple `(s, p, o)` matching the ends is kept
+    unless `p` is a plain member or, for some inverse member `^a`, `(o, a, s)` is in the graph.
+    (For a set without inverse members this is the SPARQL definition; with an inverse member it is
+    not — known finding C11-F5.) -/
 def negEval (g : Graph) (fw bw : List Term) : Ev := fun s o =>
+  (g.filter (fun t => okPos s t.1 && (okPos o t.2.2 && (!(decide (t.2.1 ∈ fw)) &&
+      !(bw.any (fun a => decide ((t.2.2, a, t.1) ∈ g))))))).map (fun t => (t.1, t.2.2))
+
+/-- the repair of `NegatedPath.eval` (branch fix-C11, not merged because it has to correct two lines of
+    the module doctest): forward triples whose predicate is not a plain member (present when there is a
+    plain member or no member at all) and reversed triples whose predicate is not an inverse member
+    (present when there is an inverse member).  Not used by `evalPath`. -/
+def negEvalFixed (g : Graph) (fw bw : List Term) : Ev := fun s o =>
   (if !fw.isEmpty || bw.isEmpty then
      (g.filter (fun t => okPos s t.1 && (okPos o t.2.2 && !(decide (t.2.1 ∈ fw))))).map (fun t => (t.1, t.2.2))
    else []) ++
